@@ -750,8 +750,8 @@ def main():
     run.stubs = ['numba.njit / numba.pycc.CC: identity decorators', 'numpy.empty/empty_like -> object arrays, int -> truncation on proxies (as in C07)', 'exp/tanh/sqrt/cos uninterpreted']
     run.bounds = dict(copies=len(items), scenarios='general splines degrees 1,3,4; uniform cubic 1 and 3 cells (dx != dy); all initialisation functions; density kernels; '
                       'v-parallel evaluation step (three boundary modes, symbolic shift), flux_advection')
-    run.outside = ['the main clause of C19 beyond the modelled divergences: the generated Fortran itself is not encoded (no Fortran/LLVM-IR to SMT engine here); what is decided is that the kernels do not depend on the two modelled Python-only behaviours (D1, D2), '
-                   'that the documented build succeeds, and (concretely, one float scenario) that build and source agree on the many-sweeps implicit step',
+    run.outside = ['the main clause of C19 beyond the modelled divergences: the generated Fortran itself is not encoded (no Fortran/LLVM-IR to SMT engine here); what is decided is that the kernels do not depend on the three modelled Python-only behaviours (D1, D2, D3), '
+                   'that the documented build succeeds, and (concretely, two float scenarios) that build and source agree on the many-sweeps implicit step and on the uniform-cubic kernels at points k*dx',
                    'numba / pythran compilation itself (the copies are executed as Python)', 'get_lagrange_vals of the copies (not exercised); poloidal steps only on the listed potentials',
                    'floating-point reassociation']
     run.assumptions = ['exact reals for doubles']
